@@ -79,6 +79,58 @@ close_code(nni_ws *ws)
 	return (u16) ((b0 << 8) | b1);
 }
 
+#ifdef FINISH
+/* C16 (ii) reassembly + C20: NF data frames (payloads symbolic, 2 bytes each)
+ * are queued, a receiver waits: the delivered message is their concatenation;
+ * with the message allocation failing (FAILMSG) the receive fails cleanly with
+ * NNG_ENOMEM and no lock is re-entered. */
+#include "env_msg.h"
+void
+harness(void)
+{
+	nni_ws *ws = NULL;
+	nni_aio ua;
+	u8      pay[3][2];
+	CHECK(ws_init(&ws) == 0 && ws != NULL, "ws_init");
+	ws->server = SERVER;
+	ws->ready  = true;
+	for (int i = 0; i < NF; i++) {
+		ws_frame *f = NNI_ALLOC_STRUCT(f);
+		pay[i][0] = ND(u8), pay[i][1] = ND(u8);
+		f->sdata[0] = pay[i][0], f->sdata[1] = pay[i][1];
+		f->buf   = f->sdata;
+		f->len   = 2;
+		f->final = (i == NF - 1);
+		f->op    = i == 0 ? WS_BINARY : WS_CONT;
+		nni_list_append(&ws->rxq, f);
+	}
+	nni_aio_init(&ua, NULL, NULL);
+	env_aio_submit(&ua);
+	nni_aio_list_append(&ws->recvq, &ua);
+#ifdef FAILMSG
+	env_msg_fail_at = env_msg_allocs;
+#endif
+	nni_mtx_lock(&ws->mtx); /* as ws_read_cb holds it */
+	ws_read_finish(ws);
+	nni_mtx_unlock(&ws->mtx);
+#ifdef FAILMSG
+	CHECK(env_aio_completed(&ua) == 1 && nni_aio_result(&ua) == NNG_ENOMEM, "C20: a failed message allocation fails the receive with NNG_ENOMEM");
+	CHECK(ws->closed, "and closes the connection (documented best-effort loss of one connection)");
+	WITNESS("allocation failure handled");
+#else
+	CHECK(env_aio_completed(&ua) == 1 && nni_aio_result(&ua) == 0, "a complete message is delivered to the waiting receiver");
+	nni_msg *m = nni_aio_get_msg(&ua);
+	CHECK(m != NULL && nni_msg_len(m) == 2 * NF, "the delivered message has the total length of its fragments");
+	size_t j = ND(usz);
+	ASSUME(j < 2 * NF);
+	CHECK(((u8 *) nni_msg_body(m))[j] == pay[j / 2][j % 2], "the delivered message is the concatenation of the fragments in order");
+	CHECK(nni_list_empty(&ws->rxq), "the fragments are consumed");
+	WITNESS("reassembled");
+#endif
+	CHECK(env_locks_held == 0, "no lock held");
+	WITNESS("end");
+}
+#else
 void
 harness(void)
 {
@@ -240,3 +292,4 @@ harness(void)
 	CHECK(env_locks_held == 0, "ws lock released");
 	WITNESS("end");
 }
+#endif
